@@ -80,6 +80,8 @@ extern int mpt_decode_command(MPT_STRUCT(decode_state) *dec, const struct iovec 
 			from.base = end = cont->iov_base;
 			from.used = cont->iov_len;
 		}
+		/* continue behind header */
+		from.base = end;
 		dec->data.pos = off;
 		dec->data.len = len;
 		dec->data.msg = -1;
